@@ -59,6 +59,15 @@ func shapes() []ctxShape {
 		}, func(b string) []string {
 			return []string{"__on_conversion::" + b + "::example.com.v1::example.com.v2", "__on_conversion::" + b}
 		}},
+		// a Synchronization with a few hundred objects: a context of some hundred kilobytes
+		{"SynchronizationBig", func(b string) map[string]any {
+			var objs []any
+			pad := strings.Repeat("x", 1000)
+			for i := 0; i < 300; i++ {
+				objs = append(objs, map[string]any{"object": map[string]any{"metadata": map[string]any{"name": fmt.Sprintf("o%d", i)}, "data": map[string]any{"pad": pad}}})
+			}
+			return map[string]any{"binding": b, "type": "Synchronization", "objects": objs}
+		}, func(b string) []string { return []string{k(b, "::synchronization"), k(b, "")} }},
 		// contexts without a type (configVersion v0 hooks): no typed candidates, __main__ serves them
 		{"Typeless", func(b string) map[string]any { return map[string]any{"binding": b} }, func(string) []string { return nil }},
 		{"TypelessKube", func(b string) map[string]any {
@@ -113,6 +122,11 @@ func (e *c19env) run(id int, defs []handlerDef, contexts []map[string]any, args 
 	sb.WriteString("#!/bin/bash\nsource " + e.lib + "\n")
 	sb.WriteString("function __config__() { echo 'configVersion: v1'; }\n")
 	for _, d := range defs {
+		if d.status == -2 {
+			// a handler that reads its standard input to the end (kubectl apply -f -, cat, read ...)
+			sb.WriteString(fmt.Sprintf("function %s() { echo \"%s ${BINDING_CONTEXT_CURRENT_INDEX}\" >> %s; cat > /dev/null; return 0; }\n", d.name, d.name, trace))
+			continue
+		}
 		if d.status < 0 {
 			// a failure in strict mode: a command in the middle of the handler fails; the library's
 			// `set -e` must end the handler (and the run) there
@@ -162,7 +176,7 @@ func expected(cases []ctxCase) (trace []string, ok bool) {
 			if st, def := c.defined[h]; def {
 				trace = append(trace, fmt.Sprintf("%s %d", h, i))
 				found = true
-				if st != 0 {
+				if st != 0 && st != -2 {
 					return trace, false
 				}
 				break
@@ -295,9 +309,9 @@ func TestVerifC19(t *testing.T) {
 		}
 	}
 	// arrays of 2-3 contexts of different types, with a failing or missing handler at each position
-	pick := []int{1, 2, 4, 5, 6, 9, 10, 11}
+	pick := []int{1, 2, 4, 5, 6, 9, 10, 11, 12}
 	if !vres.Thorough() {
-		pick = []int{1, 2, 6, 10}
+		pick = []int{1, 2, 6, 11}
 	}
 	for _, b := range []string{"pods", "Monitor pods in cache tier"} {
 		for _, i1 := range pick {
@@ -308,7 +322,7 @@ func TestVerifC19(t *testing.T) {
 						idx = append(idx, i3)
 					}
 					for bad := -1; bad < len(idx); bad++ {
-						for _, how := range []string{"fail", "missing", "strict"} {
+						for _, how := range []string{"fail", "missing", "strict", "stdin"} {
 							if bad < 0 && how != "fail" {
 								continue
 							}
@@ -325,6 +339,9 @@ func TestVerifC19(t *testing.T) {
 								badStatus := 5
 								if how == "strict" {
 									badStatus = -1
+								}
+								if how == "stdin" {
+									badStatus = -2 // not a failure: the handler at this position reads its stdin
 								}
 								def := map[string]int{}
 								if definable(h) {
